@@ -61,6 +61,9 @@ func judge(c Case, w *vkit.W) {
 			w.Fail(c, "text-round-trip", fmt.Sprintf("Size(%d): MarshalText = %q, UnmarshalText -> %d, %v (switches %03b)", c.S, text, uint64(back), err, c.Switches))
 		}
 	}
+	if err == nil {
+		w.RetainBytes(c, "MarshalText", text, string(text)) // kept as returned: a later marshal must not change it
+	}
 	js, err := s.MarshalJSON()
 	if err != nil {
 		w.Fail(c, "marshal-error", fmt.Sprintf("Size(%d).MarshalJSON() error %v (switches %03b)", c.S, err, c.Switches))
@@ -72,6 +75,7 @@ func judge(c Case, w *vkit.W) {
 		if err := back.UnmarshalJSON(js); err != nil || back != s {
 			w.Fail(c, "json-round-trip", fmt.Sprintf("Size(%d): MarshalJSON = %q, UnmarshalJSON -> %d, %v (switches %03b)", c.S, js, uint64(back), err, c.Switches))
 		}
+		w.RetainBytes(c, "MarshalJSON", js, string(js))
 		switch {
 		case len(js) > 0 && js[0] == '{':
 			w.Class("json_form_object")
